@@ -29,9 +29,9 @@ Definition rec_limit (lim : Z) : Z := if (0 <? lim)%Z then lim else (-1)%Z.
 
 (* the tail of subscribeCmd after the recovery decision: merge with the empty
    buffer, offset bumps, publications only when recovered *)
-Definition finish (cache_mode : bool) (recovered : bool) (recpubs : list pub)
+Definition finish (cache_mode : bool) (recovered : bool) (recpubs buf : list pub)
            (latest_off latest_ep req_off : N) : sres :=
-  let '(merged, maxseen, ok) := merge recpubs [] in
+  let '(merged, maxseen, ok) := merge recpubs buf in
   if negb ok then RErr 3010                                  (* DisconnectInsufficientState *)
   else
     let merged := if cache_mode then match merged with
@@ -59,7 +59,7 @@ Definition sub_stream (lim : Z) (filt : N -> bool) (h : hub) (ch req_off req_ep 
         else
           (* the result still carries the stream position *)
           match snd (hub_get h ch f meta) with
-          | OHist _ top ep => (h1, finish false false [] top ep req_off)
+          | OHist _ top ep => (h1, finish false false [] [] top ep req_off)
           | _ => (h1, RErr 100)
           end
       else (h1, RErr code)
@@ -74,8 +74,8 @@ Definition sub_stream (lim : Z) (filt : N -> bool) (h : hub) (ch req_off req_ep 
              end in
       if negb recovered then
         if reject then (h1, RErr ErrUnrecoverablePosition)
-        else (h1, finish false false [] top ep req_off)
-      else (h1, finish false true (map (to_pub filt) items) top ep req_off)
+        else (h1, finish false false [] [] top ep req_off)
+      else (h1, finish false true (map (to_pub filt) items) [] top ep req_off)
   end.
 
 (* recoverCache *)
@@ -120,22 +120,29 @@ Definition sub_cache (lim : Z) (use_filters : bool) (filt : N -> bool) (hnd : ch
   | None => (h1, RErr 100)
   | Some (latest, recp, top, ep) =>
       let '(pubs, recovered) := is_cache_recovered latest recp top ep req_off req_ep in
-      let fin h' pubs recovered top ep :=
-        (h', finish true recovered (map (to_pub (fun _ => false)) pubs) top ep req_off) in
+      let fin h' pubs buf recovered top ep :=
+        (h', finish true recovered (map (to_pub (fun _ => false)) pubs) buf top ep req_off) in
       match latest, hnd with
-      | None, HNo => fin h1 pubs recovered top ep
+      | None, HNo => fin h1 pubs [] recovered top ep
       | None, HPopulate id po =>
-          let h2 := fst (publish h1 ch id po) in
+          let '(h2, po_out) := publish h1 ch id po in
+          (* the handler's publication reaches this subscriber through the hub while the
+             subscribe is still buffering: it is in the PUB/SUB buffer (as a marker if the
+             subscription's filters exclude it) *)
+          let buf := match po_out with
+                     | OPub off _ 0 _ => [to_pub filt (mkItem off id)]
+                     | _ => []
+                     end in
           if negb recovered then
             let '(h3, r2) := recover_cache lim use_filters filt h2 ch meta in
             match r2 with
             | None => (h3, RErr 100)
             | Some (latest2, recp2, top2, ep2) =>
                 let '(pubs2, recovered2) := is_cache_recovered latest2 recp2 top2 ep2 req_off req_ep in
-                fin h3 pubs2 recovered2 top2 ep2
+                fin h3 pubs2 buf recovered2 top2 ep2
             end
-          else fin h2 pubs recovered top ep
-      | _, _ => fin h1 pubs recovered top ep
+          else fin h2 pubs buf recovered top ep
+      | _, _ => fin h1 pubs [] recovered top ep
       end
   end.
 
